@@ -41,6 +41,7 @@ type World struct {
 	// the providers the server uses (for state keys)
 	Topics   *topics.MemTopics
 	Sessions *sessions.MemProvider
+	wsLn     net.Listener // the websocket side (ws.go)
 }
 
 // ImplKey renders the implementation-side state the model cannot see: the
